@@ -4,7 +4,10 @@ Real `DaskGeoDataFrame.pack_partitions(npartitions, p)` (scheduler 'synchronous'
 frames of every geometry kind with missing / empty rows and two geometry columns, under
 every split of the rows into consecutive input partitions (small n; empty input
 partitions; input already sorted by key), npartitions in 1..8 (and the default), p in
-{1, 5, 15, 20}, and on frames that were packed before.  Checked on the real output:
+{1, 5, 15, 20}, and on histories: warm partition-bounds cache (partition_sindex / cx /
+parquet metadata) -> row filter shrinking the extent -> pack; pack -> set_geometry or filter ->
+pack again (same / other partition count and p), each also compared with packing the same rows
+from a fresh frame.  Checked on the real output:
 
   * same multiset of complete rows (all columns, geometry values) as the input;
   * the index of every row is that row's Hilbert distance, recomputed independently of
@@ -92,6 +95,43 @@ def gen_specs(rep, tier):
                      rng.sample(PS, 2) if quick else PS,
                      presort=(t == 1 and active == 'g'),
                      repack=(rng.randint(1, 4), rng.choice(PS)) if active == 'g' else None)
+    # D. histories: warm cache -> row filter that shrinks the extent -> pack (the keys must be
+    #    taken against the SUBSET's own total bounds); pack -> (set_geometry / filter) -> pack
+    #    again, same and different partition count and p (the second packing must shuffle
+    #    across the old partitions)
+    def seq(kind, t, active, ops):
+        els = C06.template(kind, t)
+        k2, els2 = C06.second_column(kind)
+        specs.append({'kind_g': kind, 'els_g': els, 'kind_h': k2, 'els_h': els2, 'active': active,
+                      'cuts': rng.choice([[0, 6], [0, 2, 6], [0, 1, 3, 6], [0, 2, 4, 6]]),
+                      'seq': ops, 'presort': False})
+    subsets = [[0, 1, 5], [2, 3, 4], [0, 5], [1, 2, 3], [0, 2, 4, 5], [3, 4, 5]]
+    for ki, kind in enumerate(G.KINDS):
+        t = (ki + rep.seed) % 2
+        other = 'h'
+        n1, p1 = rng.choice([2, 3]), rng.choice([5, 15, 20])
+        warm = ['sindex', 'cx', 'parquet', 'total_bounds']
+        for j in range(3 if quick else 12):
+            seq(kind, t, rng.choice(['g', 'g', 'h']),
+                [['cache', warm[(ki + j) % 4]], ['filter_isin', subsets[(ki + 2 * j) % 6]],
+                 ['pack', rng.randint(1, 3), rng.choice([5, 15, 20])]])
+        seq(kind, t, 'g', [['pack', n1, p1], ['set_geometry', other], ['pack', n1, p1]])
+        seq(kind, t, 'g', [['pack', n1, p1], ['cache', 'sindex'], ['filter_isin', rng.choice(subsets)],
+                           ['pack', n1, rng.choice(PS)]])
+        seq(kind, 1 - t, 'h', [['pack', 2, 15], ['set_geometry', 'g'], ['pack', 2, rng.choice([5, 20])],
+                               ['set_geometry', 'h'], ['pack', 3, 15]])
+        seq(kind, t, 'g', [['pack', 3, p1], ['pack', 2, p1], ['set_geometry', other], ['pack', 2, 5]])
+        if not quick:
+            for _ in range(10):
+                ops = []
+                for _ in range(rng.randint(2, 4)):
+                    r = rng.random()
+                    if r < 0.3:
+                        ops.append(['set_geometry', rng.choice(['g', 'h'])])
+                    elif r < 0.5:
+                        ops += [['cache', rng.choice(warm)], ['filter_isin', rng.choice(subsets)]]
+                    ops.append(['pack', rng.randint(1, 4), rng.choice(PS)])
+                seq(kind, rng.randint(0, 1), rng.choice(['g', 'h']), ops)
     # C. random frames
     for _ in range(25 if quick else 800):
         kind = rng.choice(G.KINDS)
@@ -178,7 +218,7 @@ def check_packing(ctx, spec, df, X, npart, p, tag, baseline):
         return None
     if len(set(key.values())) > 1:
         rep.nontrivial((spec['kind_g'], spec['active'], repr(spec['els_g']), repr(spec['cuts']),
-                        npart, p, tag))
+                        npart, p, tag, repr(spec.get('seq')), spec.get('seq_step')))
     if any(len(q) == 0 for q in parts):
         rep.count('empty-output-partition')
     if len(set(idx)) < len(idx):
@@ -230,6 +270,67 @@ def check_packing(ctx, spec, df, X, npart, p, tag, baseline):
     return P
 
 
+def run_seq(ctx, spec, df, X):
+    """a history of cache warm-ups, row filters, set_geometry and packings; `ref` is the pandas
+    frame that holds the same rows with the same active geometry at every step"""
+    import os
+    import shutil
+    import tempfile
+    from spatialpandas.io import read_parquet_dask
+    rep = ctx['rep']
+    ref = df
+    tmpdirs = []
+    npacks = 0
+    try:
+        for k, op in enumerate(spec['seq']):
+            if op[0] == 'cache':
+                if op[1] == 'sindex':
+                    X.partition_sindex
+                elif op[1] == 'cx':
+                    X.cx[0:8, 0:8].compute()
+                elif op[1] == 'total_bounds':
+                    X.partition_sindex
+                    X.geometry.total_bounds
+                elif op[1] == 'parquet':
+                    d = tempfile.mkdtemp(prefix='sp_c09_')
+                    tmpdirs.append(d)
+                    path = os.path.join(d, 'f.parq')
+                    X.to_parquet(path)
+                    X = read_parquet_dask(path)
+                    ref = ref.set_geometry(U.active_name(X))
+                    X.partition_sindex
+                rep.count('warm-cache:' + op[1])
+            elif op[0] == 'filter_isin':
+                X = X[X.v.isin(op[1])]
+                ref = ref[ref.v.isin(op[1])]
+                rep.count('filtered-before-pack')
+            elif op[0] == 'set_geometry':
+                X = X.set_geometry(op[1])
+                ref = ref.set_geometry(op[1])
+            elif op[0] == 'pack':
+                n, p = op[1], op[2]
+                tag = 'pack' if npacks == 0 else 'repack'
+                info = {**spec, 'seq_step': k}
+                baseline = {}
+                if len(ref):
+                    # the same rows packed from a fresh single-partition frame
+                    fresh = U.dask_from_chunks(ref.reset_index(drop=True), [0, len(ref)])
+                    check_packing(ctx, info, ref.reset_index(drop=True), fresh, n, p, 'fresh',
+                                  baseline)
+                P = check_packing(ctx, info, ref, X, n, p, tag, baseline)
+                if P is None:
+                    return
+                npacks += 1
+                if npacks > 1:
+                    rep.count('repacked')
+                X = P
+                ref = P.compute()
+                ref.index = range(len(ref))
+    finally:
+        for d in tmpdirs:
+            shutil.rmtree(d, ignore_errors=True)
+
+
 def run_spec(ctx, spec):
     rep = ctx['rep']
     df = U.make_frame(spec['kind_g'], spec['els_g'], spec['kind_h'], spec['els_h'],
@@ -240,6 +341,8 @@ def run_spec(ctx, spec):
         df = df.iloc[order]
         rep.count('presorted-input')
     X = U.dask_from_chunks(df, spec['cuts'])
+    if 'seq' in spec:
+        return run_seq(ctx, spec, df, X)
     if X._compute_packing_npartitions(None) != 8 or X._compute_packing_npartitions(3) != 3:
         rep.violation('default-npartitions', '_compute_packing_npartitions(None) is not 8 for a '
                       'small frame', {'spec': spec})
@@ -278,7 +381,8 @@ def run(rep):
     rep.rule = ('frames of 7 kinds (missing / empty rows, two geometry columns, either active) x '
                 'every split of 6 rows into consecutive input partitions (+ empty input partitions, '
                 'presorted input, random frames of <= 9 rows) x npartitions 1..8 / default x p in '
-                '{1,5,15,20} (+ re-packing a packed frame); one evaluation = one computed packing; '
+                '{1,5,15,20} (+ histories: warm cache -> filter -> pack; pack -> set_geometry / filter -> '
+                'pack again, vs a fresh frame of the same rows); one evaluation = one computed packing; '
                 'non-trivial = at least two distinct keys; distinct = distinct '
                 '(frame, partitioning, npartitions, p)')
     ctx = {'rep': rep, 'cases': [], 'results': [], 'metas': [], 'unclaimed': []}
@@ -298,10 +402,11 @@ def replay(rep, rp):
     import dask
     import numba
     spec = dict(rp['spec'])
-    if 'npartitions' in rp:
+    if 'npartitions' in rp and 'seq' not in spec:
         spec['nps'] = [rp['npartitions']] if rp.get('stage') != 'repack' else spec['nps'][:1]
         spec['ps'] = [rp['p']] if rp.get('stage') != 'repack' else spec['ps'][:1]
     spec.pop('repacked_after', None)
+    spec.pop('seq_step', None)
     ctx = {'rep': rep, 'cases': [], 'results': [], 'metas': [], 'unclaimed': []}
     numba.set_num_threads(1)
     with dask.config.set(scheduler='synchronous'):
